@@ -498,6 +498,8 @@ Fixpoint pure_expr (fuel : nat) (e : expr) {struct fuel} : bool :=
           match b with
           | [SReturn (Some r)] => pure_expr f r
           | SDecl _ _ (Some i) :: b' => pure_expr f i && ps b'
+          | SDecl _ _ None :: b' => ps b'
+          | SExpr (EMethod o m [EVar _]) :: b' => String.eqb m "GetDimensions" && pure_expr f o && ps b'
           | _ => false
           end in
     match e with
@@ -603,6 +605,32 @@ Fixpoint peval (fuel : nat) (st : state) (e : expr) {struct fuel} : cres :=
                         end
                       | OutOfFuel => OutOfFuel | Fail m => Fail m
                       end
+                    | SDecl t x None :: b' =>
+                      match zero_of 16 t with
+                      | Done z => go b' (push_local st' x t z)
+                      | OutOfFuel => OutOfFuel | Fail m => Fail m
+                      end
+                    | SExpr (EMethod o m [EVar x]) :: b' =>
+                      (* buffer.GetDimensions(x): x receives the size of the buffer in bytes *)
+                      if String.eqb m "GetDimensions" then
+                        match peval fu st' o with
+                        | Done (VPtr bi [], u2) =>
+                          match nth_error (st_bufs st') bi with
+                          | Some (_, (_, bytes)) =>
+                            match assign_path st' x [] (VU32 (Z.of_nat (List.length bytes))) with
+                            | Done st'' =>
+                              match go b' st'' with
+                              | Done (w, u3) => Done (w, (u2 ++ u3)%list)
+                              | OutOfFuel => OutOfFuel | Fail m => Fail m
+                              end
+                            | OutOfFuel => OutOfFuel | Fail m => Fail m
+                            end
+                          | None => Fail "unsupported: buffer reference"
+                          end
+                        | Done _ => Fail "unsupported: GetDimensions on a non-buffer"
+                        | OutOfFuel => OutOfFuel | Fail m => Fail m
+                        end
+                      else Fail "unsupported: method statement in a helper"
                     | _ => Fail "unsupported: call of an impure function inside a pure expression"
                     end in
               match body (fn_body fn) (mkstate frame (st_globals st) (st_bufs st)) with
